@@ -357,9 +357,29 @@ def run(ctx):
                     if ghost and ii != 0:
                         continue
                     jobs.append((flow, dim, ptc, ghost, depth, ii))
-    res = map_jobs(_job, jobs, ctx.ncpu, job_timeout=3000)
+    scripts = manager_scripts(3 if ctx.thorough else 2)
+    mjobs = []
+    for fam in FAMILIES:
+        k = max(1, len(scripts) // 6)
+        for i in range(0, len(scripts), k):
+            mjobs.append((fam, scripts[i:i + k]))
+    both = map_jobs(lambda j: _job(j[1]) if j[0] == 'b' else
+                    _manager_job(j[1]),
+                    [('b', j) for j in jobs] + [('m', j) for j in mjobs],
+                    ctx.ncpu, job_timeout=3000)
+    res = both[:len(jobs)]
     viol = {}
     ns = nt = 0
+    nms = nmt = 0
+    for job, r in zip(mjobs, both[len(jobs):]):
+        if isinstance(r, Crash):
+            viol.setdefault('io:manager:crash:%s' % job[0], (
+                r.reason, dict(family=job[0], script=job[1][0])))
+            continue
+        nms += r[0]
+        nmt += r[1]
+        for k2, x in r[2].items():
+            viol.setdefault(k2, x)
     for job, r in zip(jobs, res):
         if isinstance(r, Crash):
             viol.setdefault('io:crash', (r.reason, dict(job=list(job[:4]))))
@@ -371,8 +391,11 @@ def run(ctx):
             viol.setdefault(k, x)
     vs = [Violation(k, '%s [%r]' % (w, rep), rep)
           for k, (w, rep) in sorted(viol.items())]
+    ns += nms
+    nt += nmt
     cov = dict(states=ns, transitions=nt, traces_validated_against_impl=nt,
-               depth=depth, exhaustive=True,
+               depth=depth, exhaustive=True, manager_histories=nms,
+               manager_updates=nmt, families=FAMILIES,
                samples=[dict(flow='+x', init=initial_states()[0],
                              moves=[list(m) for m in MOVES[:3]])],
                rule='BFS over histories of <=%d rounds; one round = one of %d '
@@ -383,7 +406,16 @@ def run(ctx):
                     'active or not; 4 initial populations x 7 flow '
                     'directions (1-3 D) x props_to_copy none/subset x '
                     'with/without ghost inlet; states deduplicated on '
-                    '(array, position, id) triples' % (depth, len(MOVES)))
+                    '(array, position, id) triples.  In addition, for each '
+                    'of the five shipped families a 2-D channel with one '
+                    'inlet and two outlets (right and top) is built through '
+                    'the family\'s SimpleInletOutlet manager and every '
+                    'history of <=%d displacements out of 6 (incl. a '
+                    'diagonal one and one longer than a zone) is run '
+                    'through the update objects returned by '
+                    'get_inlet_outlet (the family\'s own Inlet / Outlet '
+                    'classes) and compared with a bookkeeping model'
+                    % (depth, len(MOVES), 3 if ctx.thorough else 2))
     assumptions = ['a particle exactly on an interface plane may go either '
                    'way: such states are not generated',
                    'the InletBase/OutletBase objects are driven directly '
@@ -397,6 +429,9 @@ def run(ctx):
 def replay(ctx, obj):
     """Re-executes the recorded history (moves + stage per round) on a fresh
     world and judges every round like the search does."""
+    if 'family' in obj:
+        pr = manager_case(obj['family'], [tuple(m) for m in obj['script']])
+        return dict(violates=bool(pr), problems=pr[:3])
     flow, dim = obj['flow'], obj['dim']
     ptc = obj.get('props_to_copy')
     world = World(flow, dim, ptc, obj.get('ghost', False))
@@ -424,3 +459,175 @@ def replay(ctx, obj):
                                  [x for x in got[nm] if x not in want[nm]][:2]))
         st = exp
     return dict(violates=bool(problems), problems=problems[:5])
+
+
+# ---------------------------------------------------------------------------
+# the five shipped families, driven through their manager
+# ---------------------------------------------------------------------------
+FAMILIES = ['donothing', 'mod_donothing', 'mirror', 'hybrid', 'characteristic']
+
+
+def manager_case(family, script):
+    """2-D channel: inlet at x<0 (flow +x), outlets at x>FL (normal +x) and
+    at y>H (normal +y), built by the family's SimpleInletOutlet manager; the
+    update objects come from get_inlet_outlet().  `script`: list of
+    (dx, dy) displacements of all inlet and fluid particles (in units of DX),
+    each followed by an update of every object.  Returns problems."""
+    import importlib
+    from compyle.config import get_config
+    get_config().use_openmp = False
+    from pysph.base.utils import get_particle_array
+    from pysph.base.kernels import CubicSpline
+    from pysph.sph.bc.inlet_outlet_manager import InletInfo, OutletInfo
+    base = 'pysph.sph.bc.%s.' % family
+    Manager = importlib.import_module(base + 'simple_inlet_outlet')\
+        .SimpleInletOutlet
+    Inlet = importlib.import_module(base + 'inlet').Inlet
+    Outlet = importlib.import_module(base + 'outlet').Outlet
+    NX, NY = 4, 3
+    FL, H, L = NX * DX, NY * DX, NZ * DX
+    uid = [0]
+
+    def block(name, xs, ys):
+        x, y = np.meshgrid(xs, ys, indexing='ij')
+        x, y = x.ravel(), y.ravel()
+        n = len(x)
+        pa = get_particle_array(name=name, x=x, y=y, h=1.2 * DX, m=1.0,
+                                rho=1.0, u=1.0)
+        pa.add_property('uid')
+        pa.uid[:] = np.arange(uid[0], uid[0] + n)
+        uid[0] += n
+        return pa
+    cx = lambda n, x0: x0 + (np.arange(n) + 0.5) * DX
+    arrays = dict(
+        fluid=block('fluid', cx(NX, 0.0), cx(NY, 0.0)),
+        inlet=block('inlet', cx(NZ, -L), cx(NY, 0.0)),
+        outR=block('outR', cx(NZ, FL), cx(NY, 0.0)),
+        outT=block('outT', cx(NX, 0.0), cx(NZ, H)))
+    infos_in = [InletInfo('inlet', normal=[-1.0, 0.0, 0.0],
+                          refpoint=[0.0, 0.0, 0.0], has_ghost=False,
+                          update_cls=Inlet)]
+    infos_out = [OutletInfo('outR', normal=[1.0, 0.0, 0.0],
+                            refpoint=[FL, 0.0, 0.0], has_ghost=False,
+                            update_cls=Outlet,
+                            props_to_copy=None),
+                 OutletInfo('outT', normal=[0.0, 1.0, 0.0],
+                            refpoint=[0.0, H, 0.0], has_ghost=False,
+                            update_cls=Outlet, props_to_copy=None)]
+    man = Manager(['fluid'], inletinfo=infos_in, outletinfo=infos_out)
+    man.update_dx(DX)
+    man.active_stages = [1]
+    man.setup_iom(dim=2, kernel=CubicSpline(dim=2))
+    for pa in arrays.values():
+        man.add_io_properties(pa)
+        for p in ('uref',):
+            if p not in pa.constants:
+                pa.add_constant(p, 0.0)
+    objs = man.get_inlet_outlet(arrays)
+    probs = []
+    # one update object per zone
+    seen = []
+    for o in objs:
+        seen.append(getattr(o, 'inlet_pa', None) is not None and
+                    o.inlet_pa.name or o.outlet_pa.name)
+    if sorted(seen) != ['inlet', 'outR', 'outT']:
+        probs.append(('manager:update-objects', 'get_inlet_outlet returned '
+                      'update objects for %r, zones are inlet, outR, outT'
+                      % (seen,)))
+        return probs
+
+    # model: uid -> (array, x, y)
+    model = {}
+    for nm, pa in arrays.items():
+        for i in range(pa.get_number_of_particles()):
+            model[int(pa.uid[i])] = [nm, float(pa.x[i]), float(pa.y[i])]
+    next_uid = [uid[0]]
+    n_fluid0 = arrays['fluid'].get_number_of_particles()
+    entered = left = 0
+    for rnd, (mx, my) in enumerate(script):
+        for nm in ('inlet', 'fluid', 'outR', 'outT'):
+            pa = arrays[nm]
+            sx = mx if nm != 'outT' else 0.0
+            sy = my if nm in ('fluid', 'outT') else 0.0
+            pa.x[:] = pa.x + sx * DX
+            pa.y[:] = pa.y + sy * DX
+        for u, rec in list(model.items()):
+            nm = rec[0]
+            rec[1] += (mx if nm != 'outT' else 0.0) * DX
+            rec[2] += (my if nm in ('fluid', 'outT') else 0.0) * DX
+        for o in objs:
+            o.update(0.0, 0.1, 1)
+        # expected bookkeeping (zone ids are evaluated once per update)
+        for u, rec in list(model.items()):
+            nm, x, y = rec
+            if nm == 'inlet' and x > 1e-9:
+                # copy enters the fluid, the original is recycled
+                rec[1] = x - L
+                model[-(u + 1) - 1000 * rnd] = ['fluid', x, y]
+                entered += 1
+            elif nm == 'fluid':
+                # the outlets are updated in the order given: a particle
+                # beyond both planes is taken by the first one
+                if x > FL + 1e-9:
+                    rec[0] = 'outR'
+                    left += 1
+                elif y > H + 1e-9:
+                    rec[0] = 'outT'
+                    left += 1
+            elif nm == 'outR' and x > FL + L + 1e-9:
+                del model[u]
+            elif nm == 'outT' and y > H + L + 1e-9:
+                del model[u]
+        for nm in ('inlet', 'fluid', 'outR', 'outT'):
+            pa = arrays[nm]
+            got = sorted((round(float(a), 9), round(float(b), 9))
+                         for a, b in zip(pa.x, pa.y))
+            want = sorted((round(r[1], 9), round(r[2], 9))
+                          for r in model.values() if r[0] == nm)
+            if got != want:
+                extra = [g for g in got if g not in want][:3]
+                miss = [w for w in want if w not in got][:3]
+                probs.append(('manager:%s-positions' % (
+                    'fluid' if nm == 'fluid' else 'zone'),
+                    'family %s round %d: array %s holds %d particles, model '
+                    '%d; unexpected %r missing %r' % (
+                        family, rnd, nm, len(got), len(want), extra, miss)))
+                return probs
+        nf = arrays['fluid'].get_number_of_particles()
+        if nf != n_fluid0 + entered - left:
+            probs.append(('manager:fluid-count', 'family %s round %d: %d '
+                          'fluid particles, expected %d + %d - %d' % (
+                              family, rnd, nf, n_fluid0, entered, left)))
+            return probs
+    return probs
+
+
+MANAGER_MOVES = [(1.0, 0.0), (0.0, 1.0), (0.6, 0.0), (0.0, 0.6), (1.2, 0.6),
+                 (3.6, 0.0)]
+
+
+def manager_scripts(depth):
+    import itertools
+    out = []
+    for d in range(1, depth + 1):
+        out += [list(s) for s in itertools.product(MANAGER_MOVES, repeat=d)]
+    return out
+
+
+def _manager_job(args):
+    family, scripts = args
+    viol = {}
+    n = 0
+    for sc in scripts:
+        # positions exactly on a plane may go either way: not generated
+        try:
+            pr = manager_case(family, sc)
+        except Exception as e:  # noqa
+            import traceback
+            pr = [('manager:exception:%s' % type(e).__name__,
+                   'family %s: %s' % (family, traceback.format_exc()[-400:]))]
+        n += len(sc)
+        for kind, what in pr[:1]:
+            viol.setdefault('io:%s:%s' % (kind, family), (
+                what, dict(family=family, script=[list(m) for m in sc])))
+    return len(scripts), n, viol
